@@ -1301,6 +1301,26 @@ pub fn gen(seed: u64, boot_seed: u64, run: u64, faulty: bool) -> Scenario {
         if faults.is_empty() {
             faults.push((rng.below(calls.len()), kinds[0], rng.below(2) as u8));
         }
+        // one fault-injecting run in five: a BURST - two or three faults on neighbouring OS calls
+        // (i, i+1 / i, i+2 / i, i+1, i+2), the first one of a kind that makes implementations take
+        // another route (cross-device, interrupted, busy, would-block): what fails is then the
+        // second or third step of a fall-back, a retry or a clean-up
+        if rng.chance(1, 5) {
+            let i = rng.below(calls.len() + 1);
+            let first = [libc::EXDEV, libc::EINTR, libc::EBUSY, libc::EAGAIN, libc::EXDEV][rng.below(5)];
+            faults.retain(|(k, _, _)| *k < i || *k > i + 2);
+            faults.push((i, first, 0));
+            let second = kinds[rng.below(kinds.len())];
+            match rng.below(3) {
+                0 => faults.push((i + 1, second, rng.below(2) as u8)),
+                1 => faults.push((i + 2, second, rng.below(2) as u8)),
+                _ => {
+                    faults.push((i + 1, kinds[rng.below(kinds.len())], 0));
+                    faults.push((i + 2, second, rng.below(2) as u8));
+                }
+            }
+            faults.sort();
+        }
     }
     // one run in twelve: a world with unwritable files in which calls only read, write and copy
     let mut readonly = Vec::new();
